@@ -136,6 +136,10 @@ pub struct LegOpts {
 	pub confirm: usize,
 	pub max_shrink_iters: usize,
 	pub rule: &'static str,
+	/// Signature prefixes of failures that are legitimately probabilistic (they need a particular
+	/// interleaving the harness does not own) and whose oracle is protected against stalls by a
+	/// generous wait: for these, one repeat in 5 re-executions confirms, instead of all of `confirm`.
+	pub confirm_any: &'static [&'static str],
 }
 
 impl LegOpts {
@@ -147,6 +151,7 @@ impl LegOpts {
 			confirm: 0,
 			max_shrink_iters: 4000,
 			rule,
+			confirm_any: &[],
 		}
 	}
 	pub fn realtime(cases: usize, threads: usize, rule: &'static str) -> Self {
@@ -157,6 +162,7 @@ impl LegOpts {
 			confirm: 3,
 			max_shrink_iters: 24,
 			rule,
+			confirm_any: &[],
 		}
 	}
 }
@@ -490,13 +496,24 @@ impl Engine {
 
 						// confirm (real-time media): must reproduce with same signature
 						let mut confirmed = true;
-						for _ in 0..opts.confirm {
-							let again = guarded(run, &case);
-							match again.failure {
-								Some(f2) if f2.signature == f.signature => {}
-								_ => {
-									confirmed = false;
+						let any_mode = opts.confirm > 0 && opts.confirm_any.iter().any(|p| f.signature.starts_with(p));
+						if any_mode {
+							confirmed = false;
+							for _ in 0..5 {
+								if matches!(guarded(run, &case).failure, Some(f2) if f2.signature == f.signature) {
+									confirmed = true;
 									break;
+								}
+							}
+						} else {
+							for _ in 0..opts.confirm {
+								let again = guarded(run, &case);
+								match again.failure {
+									Some(f2) if f2.signature == f.signature => {}
+									_ => {
+										confirmed = false;
+										break;
+									}
 								}
 							}
 						}
@@ -521,11 +538,11 @@ impl Engine {
 							continue;
 						}
 
-						// shrink, holding the signature fixed
+						// shrink, holding the signature fixed (probabilistic failures are reported unshrunk)
 						let mut best = case.clone();
 						let mut best_f = f.clone();
 						let mut iters = 0;
-						if tree.simplify() {
+						if !any_mode && tree.simplify() {
 							loop {
 								iters += 1;
 								if iters > opts.max_shrink_iters {
